@@ -1029,6 +1029,36 @@ const SLOTS: &[Slot] = &[
         ],
     },
     Slot {
+        pos: "struct-with-type-override",
+        template: "#[ts(type = \"string\")] @ struct S { first_field: i32 }",
+        keys: &[("rename", "rename = \"Alpha\"", "rename = \"Beta\"")],
+    },
+    Slot {
+        pos: "struct-with-as",
+        template: "#[ts(as = \"Inner\")] @ struct S { first_field: i32 }",
+        keys: &[("rename", "rename = \"Alpha\"", "rename = \"Beta\"")],
+    },
+    Slot {
+        pos: "enum-with-type-override",
+        template: "#[ts(type = \"string\")] @ enum E { UnitV, NewV(i32) }",
+        keys: &[("rename", "rename = \"Alpha\"", "rename = \"Beta\"")],
+    },
+    Slot {
+        pos: "enum-with-as",
+        template: "#[ts(as = \"Inner\")] @ enum E { UnitV, NewV(i32) }",
+        keys: &[("rename", "rename = \"Alpha\"", "rename = \"Beta\"")],
+    },
+    Slot {
+        pos: "unit-struct",
+        template: "@ struct S;",
+        keys: &[("rename", "rename = \"Alpha\"", "rename = \"Beta\"")],
+    },
+    Slot {
+        pos: "newtype-struct",
+        template: "@ struct S(Inner);",
+        keys: &[("rename", "rename = \"Alpha\"", "rename = \"Beta\"")],
+    },
+    Slot {
         pos: "enum-tagged",
         template: "@ enum E { UnitV, NewV(Inner), StructV { inner_field: i32 } }",
         keys: &[
